@@ -157,7 +157,7 @@ def api_region(shape, vis):
         elif k == 'fill':
             v[k] = True
         elif k == 'linestyle':
-            v[k] = 'dashed' if t == 'dashed' else (0, (8, 3))
+            v[k] = {'dashed': 'dashed', 'solid': ['solid', '-'][len(vis) % 2]}.get(t, (0, (8, 3)))
         else:
             v[k] = t
     c = PixCoord(9.0, 19.0)
